@@ -483,6 +483,8 @@ def _emit_symbol(
                 "{emit_name}_name".format(
                     emit_name={
                         "argparse": "function",
+                        "pydantic": "class",
+                        "sqlalchemy": "table",
                         "sqlalchemy_table": "table",
                         "sqlalchemy_hybrid": "table",
                     }.get(emit_name, emit_name)
